@@ -125,6 +125,51 @@ PROPS["C11"] = dict(
     assumptions=["values are tagged unique ints so that duplication/loss is visible", "stress schedules are not seeded (Go scheduler); their inputs are"],
 )
 
+_WQ_TB = TB_COMMON + [
+    "the LTS's atomic steps = channel operations + straight-line code between blocking points of queue.go (hand transcription); Go channels/select/context/sync.Map/atomic as documented",
+    "container/heap = the transcription in TV/Model/GoHeap.lean (differential check only, C11)",
+    "quiescence detected black-box from runtime.Stack wait states; the dispatcher's idle select is recognised by reading the source line it is blocked at (the select that receives from workChan)",
+    "uuid.New returns fresh ids (ordinals stand for uuids)", "Go scheduler fairness and termination of work functions (hypotheses of the liveness theorems)",
+]
+_WQ_ASSUME = ["gated scripts: one external stimulus at a time, observed at quiescent points; non-quiescent interleavings are covered by the theorems (all interleavings of the LTS), not by the runs",
+              "Dequeue/SetPriority are only issued while the dispatcher is idle (C16's side condition); queue lengths >= 1",
+              "work functions are gates controlled by the harness; error values are unique objects compared by identity"]
+
+
+def _wq(pid, title_rule, level_text, extra_tb=()):
+    return dict(
+        components=[dict(name="wq", gen_args={pid: ["profile=" + pid]}, shrink_lists=False, shrink=True)] +
+                   ([dict(name="wqstress", race=True, shrink=False, independent_lines=True)] if pid in ("C04", "C09", "C14") else []),
+        clause_prefixes=[pid + "."],
+        rule=("gated scripts of 4-26 (quick) / 4-40 (thorough) stimuli (enqueue with priority/adjust function, release with nil/error, set adjust value, subscribe, receive error, resize, "
+              "dequeue, set priority, stop, break) on queues with W in 1..3 (4), L in 1..4 (5), each case in its own process; after every stimulus the observation (start order, returned "
+              "Enqueue calls, WorkItems(), errors per subscriber, goroutine wait-state histogram) must equal that of one of the model's quiescent successors (all interleavings of internal "
+              "steps explored). " + title_rule + " distinct_nontrivial = distinct scripts (hashed) that reached the full-queue branch, a fan-out, a Dequeue/SetPriority or a Stop/Break."),
+        level_text=level_text,
+        level_note=("Trusted: Lean kernel; the hand-written LTS of queue.go/workHeap.go; the correspondence at quiescent granularity (the runs cannot see non-quiescent interleavings — the theorems cover them); "
+                    "data races are outside the sequentially consistent LTS (errorSubscribers access is checked by the -race stress of C14)."),
+        trusted_base=_WQ_TB + list(extra_tb), assumptions=_WQ_ASSUME,
+    )
+
+
+PROPS["C04"] = _wq("C04", "Profile C04: mixed traffic, about a third of the cases with subscribers.",
+    "Proof over the LTS (all W, L >= 1, any number of producers/items, every interleaving): started is duplicate-free, ids distinct, every accepted item is started/dequeued/on its way (LOC ledger), "
+    "WorkItems exact; liveness as deadlock-freedom + a strictly decreasing potential for internal steps (fair runs with terminating work start everything). Partial for scheduler fairness.")
+PROPS["C05"] = _wq("C05", "Profile C05: a third of the items carry adjust functions whose values change between dispatches; priority ranges 1, 3 and 6 (1 = all equal: FIFO).",
+    "Proof: Less is the lexicographic (priority, arrival) strict weak order; the array-level heap invariant holds in every reachable state; every token decision pops a minimum of the adjusted heap "
+    "(container/heap algorithms proved in C11); adjust-all consults every function; direct hand-offs only with an empty queue.")
+PROPS["C09"] = _wq("C09", "Profile C09: fill-first streams that reach W+L+2 outstanding items and blocked producers.",
+    "Proof: CAP/PIPE/ROOM invariants for every reachable state; running <= W always; at quiescent points running = min(k, W - reporting); back-pressure bounds; full-branch threshold. "
+    "'At no instant' is the model's notion of instant (between atomic steps).")
+PROPS["C14"] = _wq("C14", "Profile C14: 0-3 subscribers before traffic, more during it, 40% of results are errors.",
+    "Proof: delivery ledger invariants — at most once per (subscriber, item), only failed items, every fan-out complete when the monitor is quiet, every failure fanned out exactly once, subscriber "
+    "count monotone, subscribe always enabled. Partial: the data race on the subscriber slice is outside the LTS (race-detector stress + shape).")
+PROPS["C16"] = _wq("C16", "Profile C16: Dequeue/SetPriority on every known ordinal and on unknown ids, items executing, waiting, handed off.",
+    "Proof: dequeued items never start; Dequeue removes exactly the identified heap element (container/heap Remove), error returns change nothing, unknown ids are no-ops, SetPriority re-heapifies (Fix).")
+PROPS["C19"] = _wq("C19", "Profile C19: Stop or Break injected at a random position of every script, then everything runnable is released.",
+    "Proof with fault injection = quantification over all reachable states: no panic, callers never block, rejected/limbo items never start, accepted work survives Stop, Break skips the waiting work, "
+    "the shutdown hand-shake never deadlocks.")
+
 HOOK_COMMITS = []
 
 _ALL = ["C%02d" % i for i in range(1, 21)]
